@@ -264,8 +264,9 @@ pub fn run(opts: &Opts) -> i32 {
   if !matches!(decode("[Service]\nExecStart=a 'b\n"), Decoded::Invalid(_)) { out.write(opts); return 3; }
 
   // (1) exhaustively every Unicode scalar value except NUL as a one-character pattern (sharded by code point)
+  let aux = opts.num("aux", 0) == 1;
   let mut cp: u32 = 1 + opts.shard as u32;
-  while cp <= 0x10FFFF {
+  while cp <= (if aux { 0x2FF } else { 0x10FFFF }) {
     if let Some(c) = char::from_u32(cp) {
       test(&mut out, vec![c.to_string()], "single_scalar_values");
       out.nontrivial(hash64(&(cp, 0u8)));
@@ -277,6 +278,7 @@ pub fn run(opts: &Opts) -> i32 {
   let mut idx = 0u64;
   for a in &sc { for b in &sc {
     idx += 1;
+    if aux && idx % 23 != 0 { continue; }
     if idx % opts.nshards != opts.shard { continue; }
     test(&mut out, vec![format!("{}{}", a, b)], "syntax_pairs");
     out.nontrivial(hash64(&(*a, *b, 1u8)));
